@@ -1,6 +1,7 @@
 (** C17 - write padding only appends zeros and is invisible to the device. *)
 From Coq Require Import String ZArith List.
 From NX Require Import Bytes Frame Wire Pad Pad_proofs Dispatch_proofs C17_proofs.
+From NX Require PyLite Src_all Src_pad_proofs.
 Open Scope Z_scope.
 
 (** every padding value p >= 0 (in particular 0..255), every byte string:
@@ -31,6 +32,26 @@ Proof. exact padded_request_same. Qed.
 Theorem C17_padding_only : forall k, recv_dispatch (repeat 0%N k) = DNone.
 Proof. exact dispatch_padding_only. Qed.
 
+(** ** CommInterfaceCommon.data_align / write_padding of intf/iintf.py as they are now: the
+    regenerated abstract syntax run by the PyLite interpreter equals the model for EVERY
+    padding value (negative ones included: nothing is appended) and every byte string *)
+Section OnSource.
+Import ListNotations PyLite Src_all Src_pad_proofs.
+Open Scope string_scope.
+Open Scope list_scope.
+
+Theorem C17_data_align_src : forall n r w p data,
+  call_method program (1 + n) (ci r w p) "data_align" [PBytes data] =
+  PyLite.Ok (PBytes (data_align p data), ci r w p).
+Proof. exact data_align_spec. Qed.
+
+(** setting the padding through the property setter, aligning, reading the property back *)
+Theorem C17_set_padding_src : forall n r w p0 p data,
+  call_function program (2 + n) "pad_align" [ci r w p0; PInt p; PBytes data] =
+  PyLite.Ok (PList [PBytes (data_align p data); PInt p]).
+Proof. exact pad_align_spec. Qed.
+End OnSource.
+
 Example C17_example :
   data_align 16 [85; 6; 0; 2; 91; 156]%N = [85; 6; 0; 2; 91; 156]%N ++ repeat 0%N 10 /\
   recv_dispatch (data_align 16 [85; 6; 0; 2; 91; 156]%N) = DCall RCmninfo [].
@@ -40,3 +61,4 @@ Print Assumptions C17_appends_zeros.
 Print Assumptions C17_count.
 Print Assumptions C17_invisible.
 Print Assumptions C17_padding_only.
+Print Assumptions C17_data_align_src.
